@@ -131,7 +131,10 @@ def nextPeriod (p tr : Nat) : Nat :=
 the driver re-reads them after a finishing block) -/
 def applyBlock (c : Cfg) (s : St) (i : In) : St :=
   let tr := transition c s i
-  let s1 := afterLongAccount s i
+  -- `applyNewEpoch` runs before `applyGlobalParams` and clears the empty-block lists; the accounting of the finishing
+  -- block itself then still happens (the period is changed last), so its proposer may stay recorded into the next epoch
+  let s0 : St := if tr = fFinished then { s with empty := [] } else s
+  let s1 := afterLongAccount s0 i
   let s2 := { s1 with period := nextPeriod s.period tr, cnt := if tr = fFinished then 0 else s1.cnt }
   if snapshotDue c s i tr then { s2 with lastSnapshot := i.height } else s2
 
